@@ -26,6 +26,31 @@ Fixpoint cursors_ok (head : option ref) (last : option ref) (prevlib : N) (l : l
       end
   end.
 
+(* junction clause on a burst: walking the burst with the consumer's stack, every maximal run of Undo events that
+   names a junction names the block the stack rests on once the whole run is applied (id AND number); when the
+   stack bottoms out (the junction is the root the consumer never received as New) nothing is demanded *)
+Fixpoint junc_walk (fuel : nat) (st : list block) (l : list event) : bool :=
+  match fuel with
+  | O => true
+  | S f =>
+      match l with
+      | [] => true
+      | e :: l' =>
+          match estep e with
+          | SUndo =>
+              let '(us, rest) := split_undos l in
+              let after := pop_n (length us) st in
+              forallb (fun u => match ejunc u, after with
+                                | Some j, top :: _ => ref_eqb j (bref top)
+                                | _, _ => true
+                                end) us &&
+              junc_walk f after rest
+          | SNew | SNewIrr => junc_walk f (eblk e :: st) l'
+          | _ => junc_walk f st l'
+          end
+      end
+  end.
+
 Definition c04_burst_answer_ok (k : br_case) (a : ans) : bool :=
   negb (a_served a) || (a_kind a =? 3) ||
   let evm := stream_events (r_steps k) (N.to_nat (a_m a)) in
@@ -35,7 +60,19 @@ Definition c04_burst_answer_ok (k : br_case) (a : ans) : bool :=
       let head := match cs_stack cm with top :: _ => Some (bref top) | [] => None end in
       (* a consumer that starts from a block number (also through a target cursor) has no LIB announced yet *)
       let start_lib := if (a_kind a =? 2) || (a_kind a =? 1) then None else Some (cu_lib (a_cur a)) in
-      cursors_ok head start_lib 0 (a_events a)
+      cursors_ok head start_lib 0 (a_events a) &&
+      (* the junction named by the burst's undo events *)
+      (if a_kind a =? 0 then
+         match cu_step (a_cur a) with
+         | SNew | SUndo =>
+             match cons_fold cons0 (firstn (S (N.to_nat (a_k a))) (stream_events (r_steps k) (length (r_steps k)))) with
+             | Some ck => junc_walk (S (length (a_events a))) (cs_stack ck) (a_events a)
+             | None => true
+             end
+         | _ => true
+         end
+       else if a_kind a =? 1 then junc_walk (S (length (a_events a))) [] (a_events a)
+       else true)
   end.
 
 Definition c04_burst_verdict (k : br_case) : N :=
